@@ -100,6 +100,7 @@ func reverse(b [8]byte) string {
 
 func runC16(c *Ctx) {
 	r := c.R
+	c.c16CurrentStreamLifetime()
 	ans := c.P.Method("diam", "Message", "Answer")
 	if ans == nil {
 		r.Undecided("R1", "role:Message.Answer", "-", "(*Message).Answer not found")
@@ -560,4 +561,51 @@ func derivesFromSliceParam(v ssa.Value, p *ssa.Parameter) bool {
 		}
 	}
 	return false
+}
+
+// c16CurrentStreamLifetime: R2 — on a multi-stream connection the stream a request arrived on stays the
+// connection's current stream while its handler runs (the Write adaptor of the transport answers on it). A
+// function that reads messages may therefore clear the current stream only on the way into the next read: a
+// ResetCurrentStream that is deferred, or that follows the read, has already forgotten the request's stream when
+// the answer is written through a plain io.Writer view of the connection.
+func (c *Ctx) c16CurrentStreamLifetime() {
+	r := c.R
+	rm := c.P.Func("diam", "ReadMessage")
+	n := 0
+	for _, f := range c.P.LibraryFuncs() {
+		if pkgOf(f).Path() != pkgDiam {
+			continue
+		}
+		var reads []ssa.CallInstruction
+		var resets []ssa.CallInstruction
+		for _, ci := range flow.CallInstrs(f) {
+			if rm != nil && flow.StaticCallee(ci) == rm {
+				reads = append(reads, ci)
+			}
+			if com := ci.Common(); com.IsInvoke() && com.Method.Name() == "ResetCurrentStream" {
+				resets = append(resets, ci)
+			}
+		}
+		if len(reads) == 0 || len(resets) == 0 {
+			continue
+		}
+		for i, rs := range resets {
+			n++
+			key := fmt.Sprintf("%s:current-stream-cleared-only-before-read#%d", fname(f), i+1)
+			if _, isDefer := rs.(*ssa.Defer); isDefer {
+				r.Fail("R2", key, c.pos(rs), "the connection's current stream is cleared by a deferred call, i.e. right after the message was read: while the handler runs the transport no longer knows the stream the request arrived on, and an answer written through the connection's Write adaptor leaves on the default stream")
+				continue
+			}
+			before := false
+			for _, rd := range reads {
+				if flow.Dominates(rs, rd) {
+					before = true
+				}
+			}
+			r.Check(before, "R2", key, c.pos(rs), "the current stream is cleared on the way into the next read", "the connection's current stream is cleared at a point that does not lead into the next read (after the read / on another path): the request's stream is forgotten while its handler may still answer through the Write adaptor")
+		}
+	}
+	if n == 0 {
+		r.Trivial("R2", "current-stream-lifetime:no-site", "-", "no function both reads messages and clears a connection's current stream")
+	}
 }
